@@ -180,6 +180,24 @@ def run_bounded(chk):
                                replay=lambda m, P=P, faces=faces, bad=bad, name=name: (True, {
                                    "constructor": "Polyhedron(vertices, faces)", "case": name, "vertices": P,
                                    "faces": [list(map(int, f)) for f in faces], "mismatches": bad[:6]}))
+    # thin cells far from the origin (non-uniform grid: a slab of width 0.004 at coordinates of a few thousand): a tolerance that grows with the
+    # coordinates (np.allclose on vertices, say) merges distinct vertices of such faces
+    from fractions import Fraction
+    grid = [Fraction(0), Fraction(1), Fraction(251, 250), Fraction(501, 250), Fraction(751, 250), Fraction(1001, 250)]
+    for vname in ("U7", "frame8"):
+        verts, faces = voxel_mesh(voxel_solids()[vname])
+        for off in ((0, 0, 0), (2000, -3000, 2500)):
+            n_eval += 1
+            Pq = [tuple(grid[int(c)] + off[i] for i, c in enumerate(v)) for v in verts]
+            try:
+                bad, P = compare(Pq, faces, [[1, 0, 0], [0, 1, 0], [0, 0, 1]], (0, 0, 0), what=("centroid", "inertia_tensor", "volume"))
+            except Exception as e:  # noqa: BLE001
+                bad, P = [("exception", f"{type(e).__name__}: {e}", "")], None
+            if bad:
+                n_bad += 1
+                chk.record(f"bounded:mesh_measures[thin_cells:{vname}/offset={off}]", fkey, "bounded-fail", "exact-oracle", detail=str(bad[:3]), model={}, kind="bounded",
+                           replay=lambda m, P=P, faces=faces, bad=bad, vname=vname: (True, {"constructor": "Polyhedron(vertices, faces)", "case": f"thin_cells:{vname}",
+                                                                                            "vertices": P, "faces": [list(map(int, f)) for f in faces], "mismatches": bad[:6]}))
     from . import stale
     import numpy as np
     cox = real_coxeter()
@@ -219,7 +237,7 @@ def run_bounded(chk):
                   "== exact rational oracle of the closed mesh (relative tolerance 1e-9)",
         "bound": "8 voxel solids (cube, bar, L, U of 7 cubes, C, genus-1 frame of 8, stairs, 3-D T) with unit-square faces; "
                  "5 extruded simple polygons with ear-clipped caps; Polyhedron copies of the named convex solids with <= 12 "
-                 "vertices; 4 meshes also at sizes 1e-5 and 1e4; 4 rigid placements each (offset ~10 sizes, 2 exact rational rotations); 3 objects read, moved / resized / reoriented and re-read; every ordered pair of 8 queries on 2 fresh off-origin objects against the query alone",
+                 "vertices; 2 voxel solids on a non-uniform grid with a 0.004 slab, also at offset (2000,-3000,2500); 4 meshes also at sizes 1e-5 and 1e4; 4 rigid placements each (offset ~10 sizes, 2 exact rational rotations); 3 objects read, moved / resized / reoriented and re-read; every ordered pair of 8 queries on 2 fresh off-origin objects against the query alone",
         "evaluations": n_eval, "distinct_nontrivial": len(ms),
         "rule": "distinct = different meshes; non-star-shaped: U7, C5, frame8, stairs, comb; genus 1: frame8",
         "samples": [{"mesh": m[0], "vertices": len(m[1]), "faces": len(m[2])} for m in ms[:3]],
